@@ -37,8 +37,14 @@ def classify(ctx, w: World, threads: bool = True):
         kinds = {k.split(" (")[0] for k in sw.kinds}
         late = None
         if threads and sw.field and sw.depth >= 2:
+            keyed_lines = {line for kind, line, text in sw.records if kind.split(" (")[0] == "subscript-store:key"}
             for kind, line, text in sw.records:
-                if kind.split(" (")[0] in ("subscript-store:const", "subscript-store:key", "attr-store", "method:append", "method:update") or kind.startswith("attr-store:"):
+                base_k = kind.split(" (")[0]
+                if base_k == "subscript-store:key" and len(keyed_lines) == 1:
+                    # ONE store under a computed key into a container that is already shared is a cache fill (a complete value
+                    # arrives in a single step), not the field-by-field initialisation of a published record
+                    continue
+                if base_k in ("subscript-store:const", "subscript-store:key", "attr-store", "method:append", "method:update") or kind.startswith("attr-store:"):
                     pub = published_before(w.model, sw.origin_func, sw.field, line)
                     if pub is not None:
                         late = (kind, line, text, pub)
